@@ -461,6 +461,12 @@ def run(tier: str, seed: int) -> int:
         c["history"] = (i % 2 == 1) or (i % 4 == 2) or tier == "thorough"
         c["max_doc_chars"] = 20000  # few cases, real subprocesses: larger documents (more set-iteration sites per run) are affordable here
         cases.append(c)
+    # fragment usage graphs (gen/fraggraph.py): fragment names in an order unrelated to their dependencies, several bases per fragment, bases reached only through
+    # other fragments - where the order of classes and of printed fragments comes out of dependency walks
+    for k, c in enumerate(cw.fraggraph_cases(PROP, tier, seed, 60 if tier == "thorough" else 14)):
+        c.pop("props", None)
+        c.update(strategy="client", plugins=PLUGIN_SETS[k % len(PLUGIN_SETS)], comments=["none", "stable"][k % 2], history=False, cfg={})
+        cases.append(c)
     with ThreadPoolExecutor(max_workers=core.WORKERS) as ex:
         for case, res in zip(cases, ex.map(one_case, cases)):
             r.evaluations += 1
